@@ -17,6 +17,7 @@ Oracle clauses (violation key = C14:<clause>:<site or field>):
   repack:<kind>@<offset>                 pack(parse(b)) != b; <kind> is the innermost header whose bytes differ
   length:<where>.<field>, checksum:<where>   emitted length / checksum field != reference
   checksum-fn:<class>                    packet_utils.checksum() != RFC 1071 on a bare buffer
+  history:<Class>.<attr> | history:repack | ...   parsing a corpus frame B after a frame A differs from parsing B in a fresh process
   edit-lost:<kind>.<attr>                bytes -> parse -> assign the attribute -> pack -> parse: the new value is gone
   edit-corrupts:<kind>.<attr>            ... another attribute (the one named) differs from the packet built from scratch
   edit-checksum:<where>, edit-length:<where>.<field>   ... the new bytes carry a stale checksum / length
@@ -407,6 +408,129 @@ def edit_plens (st, quick):
 
 
 # ---------------------------------------------------------------------------------------------
+# history independence of the parser:  parse A, then parse B  ==  parse B in a fresh process
+# ---------------------------------------------------------------------------------------------
+_ISO = {}      # corpus frame name -> summary of parsing it first thing in a fresh process (set before the fork)
+
+
+def parse_summary (P, frame):
+  """Everything observable about parsing one frame: per header of the chain its class, parsed flag and
+  every instance attribute (canonical form), the unparsed remainder, and the re-encoded bytes."""
+  out = []
+  try:
+    p = P.pkt.ethernet(raw=frame)
+  except Exception as e:
+    return [("parse-raises", exc_site(e) or type(e).__name__)]
+  cur, depth = p, 0
+  while cur is not None and depth < 24:
+    if isinstance(cur, bytes):
+      out.append(("bytes", cur)); break
+    if not isinstance(cur, P.packet_base):
+      out.append(("object", type(cur).__name__)); break
+    attrs = tuple((k, canon(v)) for k, v in sorted(vars(cur).items()) if k not in NOT_FIELDS)
+    out.append((type(cur).__name__, bool(getattr(cur, "parsed", False)), attrs))
+    cur = cur.next; depth += 1
+  try:
+    out.append(("repack", p.pack()))
+  except Exception as e:
+    out.append(("repack-raises", exc_site(e) or type(e).__name__))
+  return out
+
+
+def drill (x, z, depth=0):
+  """Narrow two differing canonical values down to the first differing nested element (for the message)."""
+  if isinstance(x, tuple) and isinstance(z, tuple) and depth < 8:
+    for i in range(min(len(x), len(z))):
+      if x[i] != z[i]: return drill(x[i], z[i], depth + 1)
+  return x, z
+
+
+def summary_diff (iso, got):
+  """(key suffix, text) naming the first observable difference between two parse summaries."""
+  for i in range(max(len(iso), len(got))):
+    x = iso[i] if i < len(iso) else None
+    z = got[i] if i < len(got) else None
+    if x == z: continue
+    if x is None or z is None or x[0] != z[0]:
+      return "chain", "element %d of the parsed chain is %s instead of %s" % (i, z and z[0], x and x[0])
+    if x[0] in ("repack", "bytes", "parse-raises", "repack-raises", "object"):
+      return x[0], "%s: %s instead of %s" % (x[0], short(z[1], 70), short(x[1], 70))
+    if x[1] != z[1]:
+      return "%s.parsed" % x[0], "%s.parsed is %s instead of %s" % (x[0], z[1], x[1])
+    dx, dz = dict(x[2]), dict(z[2])
+    for a in sorted(set(dx) | set(dz)):
+      if dx.get(a, MISSING) != dz.get(a, MISSING):
+        vx, vz = drill(dx.get(a, MISSING), dz.get(a, MISSING))
+        return "%s.%s" % (x[0], a), "%s.%s has %s where the isolated parse has %s" % (x[0], a, short(vz, 110), short(vx, 110))
+  return "other", "summaries differ"
+
+
+def _iso_task (name):
+  """Runs first thing in a fresh process."""
+  P = K.pox_namespace()
+  return name, parse_summary(P, K.corpus()[name])
+
+
+def history_sequence (a):
+  """The parse history explored for predecessor A: A, B1, A, B2, ... so that every frame B of the corpus is
+  parsed directly after A (all ordered pairs, A == B included)."""
+  return [(a, b) for b in K.corpus()]
+
+
+def _after_task (arg):
+  """In a fresh process: for every corpus frame B parse A then B; B must look exactly as in isolation.
+  arg = (A, stop) - stop (a frame name) ends the sequence after that B (replay)."""
+  a, stop = arg
+  P = K.pox_namespace()
+  C = K.corpus()
+  rep = Report(PID, "exploration")
+  text = []
+  for _, b in history_sequence(a):
+    parse_summary(P, C[a])
+    got = parse_summary(P, C[b])
+    rep.evaluations += 1
+    rep.transitions += 4
+    bad = got != _ISO[b]
+    rep.outcome(("history", b, digest(repr(got)), bad))
+    if bad:
+      where, what = summary_diff(_ISO[b], got)
+      rep.violation("%s:history:%s" % (PID, where),
+                    "parsing corpus frame %s after %s (and the frames before it in the sequence) differs from parsing it in a "
+                    "fresh process: %s" % (b, a, what), dict(kind="history", a=a, b=b))
+      text.append("after %s, %s: %s" % (a, b, what))
+    if b == stop: break
+  return rep, text
+
+
+def fresh_pool (workers):
+  """Every task runs in its own process forked from this (pristine: it never parses) process."""
+  import multiprocessing
+  return multiprocessing.get_context("fork").Pool(max(1, workers), maxtasksperchild=1)
+
+
+def run_history (rep, cfg):
+  import random
+  names = list(K.corpus())
+  order = list(names)
+  if cfg.seed: random.Random(cfg.seed).shuffle(order)
+  pool = fresh_pool(cfg.workers)
+  try:
+    for name, summ in pool.imap_unordered(_iso_task, order, 1):
+      _ISO[name] = summ
+    pool.close(); pool.join()
+  finally:
+    pool.terminate()
+  pool = fresh_pool(cfg.workers)       # forked after _ISO is filled
+  try:
+    for r, _ in pool.imap_unordered(_after_task, [(a, None) for a in order], 1):
+      rep.merge(r)
+    pool.close(); pool.join()
+  finally:
+    pool.terminate()
+  rep.extra["history_pairs"] = len(names) * len(names)
+
+
+# ---------------------------------------------------------------------------------------------
 # enumeration
 # ---------------------------------------------------------------------------------------------
 
@@ -592,7 +716,10 @@ def run (cfg):
   _worker.quick = quick
   K.pox_namespace()
   self_check(rep)
+  if not cfg.only or cfg.only == "history":
+    run_history(rep, cfg)              # first: this process must not have parsed anything yet
   names = list(K.ORDER)
+  if cfg.only == "history": names = []
   if cfg.only:
     names = [n for n in names if cfg.only in n]
   items = []
@@ -629,12 +756,14 @@ def run (cfg):
               "checksum fields with refs/rfc1071 over raw offsets.  Edit-after-parse phase: per stack, the base vector x payload %s is "
               "packed and parsed, then every single deviation is applied to the PARSED chain by attribute assignment (one field of one "
               "header, every header in turn), packed, parsed again and compared field by field with the same packet assembled from "
-              "scratch, and its lengths/checksums verified. distinct = distinct (violated clauses, emitted frame, parsed chain)"
+              "scratch, and its lengths/checksums verified.  History phase: for every ordered pair (A, B) of the %d corpus frames (A == B included), "
+              "in a fresh process per A: parse A, parse B; every attribute of B's parsed chain and its re-encoding must equal B parsed "
+              "first thing in a fresh process. distinct = distinct (violated clauses, emitted frame, parsed chain)"
               % (len(names), "" if quick else "; thorough: 0..1500 on every stack whose range reaches 1500", nd,
                  "{0,1,18} (+1499,1500 on the 0..1500 stacks)" if quick else "the stack's whole range",
                  "{0,1}" if quick else "{0,1,18}",
                  "" if quick else ", every triple of deviations in different fields x payload {0,1} on stacks with <= 100 deviations",
-                 129 if quick else 1501, "{18}" if quick else "{0,1,18}"))
+                 129 if quick else 1501, "{18}" if quick else "{0,1,18}", len(K.corpus())))
   rep.bound = dict(stacks=len(names), deviations=2 if quick else 3, payload_max=1500, work_items=len(items))
   rep.assumptions = ["frames carry no trailer padding (a total-length field accounts for every remaining byte)",
                      "field values are taken from the boundary sets in pktcorpus.KINDS, not from the whole wire range",
@@ -658,6 +787,19 @@ def replay (cfg, data):
   if data.get("kind") == "csum":
     v = check_csum_fn(P, data["n"], data["pat"], data["skip"])
     return bool(v), "\n".join("%s: %s" % kv for kv in v) or "checksum agrees with RFC 1071"
+  if data.get("kind") == "history":
+    pool = fresh_pool(1)
+    try:
+      _ISO.update(dict(pool.map(_iso_task, list(K.corpus()), 1)))
+    finally:
+      pool.terminate()
+    pool = fresh_pool(1)
+    try:
+      r, text = pool.map(_after_task, [(data["a"], data["b"])], 1)[0]
+    finally:
+      pool.terminate()
+    head = "fresh process; for every corpus frame B up to %s: parse %s, parse B, compare B with B parsed first thing in a fresh process" % (data["b"], data["a"])
+    return bool(r.violations), head + "\n" + ("\n".join(text) or "every B parsed exactly as in isolation")
   st = K.STACKS[data["stack"]]
   if data.get("kind") == "edit":
     dev = tuple(data["dev"])
